@@ -652,6 +652,9 @@ Proof. intros. rewrite exon_at_app by lia. reflexivity. Qed.
 Lemma exon_at_exact2 : forall (pre : list exon) X Y W rest, exon_at (pre ++ X :: Y :: W :: rest) (zlength pre + 2) = Ok W.
 Proof. intros. rewrite exon_at_app by lia. reflexivity. Qed.
 
+Lemma if_same : forall (c : bool) A (x : A), (if c then x else x) = x.
+Proof. destruct c; reflexivity. Qed.
+
 Section Cascade.
 Variables (g : gene) (chrom : list Z).
 Let strand := g_strand g.
@@ -931,6 +934,161 @@ Proof.
     rewrite Hc in Hrec. cbn [bind] in Hrec.
     inversion Hrec; subst rs. destruct Hin as [<-|[]]. cbn [r_kind r_start r_DS r_DE]. repeat split; lia.
 Qed.
+
+(* ------------------------------------------------------------------ MXE: transcript carries U X D *)
+(* X = first exon: the junction first->D is the transcript's own, nothing to emit *)
+Lemma mxe_first_fd : forall (pre post : list exon) us ue f1s f1e ds de rs,
+  t_exons t = pre ++ (us, ue) :: (f1s, f1e) :: (ds, de) :: post ->
+  chain gs (t_exons t) ge ->
+  junction_records g gseq txi t (mkJ f1s f1e ds de) true false = Ok rs -> rs = [].
+Proof.
+  intros pre post us ue f1s f1e ds de rs Hex Hch Hrec.
+  eapply (se_skip_form_down pre post us ue f1s f1e ds de); eassumption.
+Qed.
+
+(* X = second exon: the junction U->second is the transcript's own, nothing to emit *)
+Lemma mxe_second_su : forall (pre post : list exon) us ue f2s f2e ds de rs,
+  t_exons t = pre ++ (us, ue) :: (f2s, f2e) :: (ds, de) :: post ->
+  chain gs (t_exons t) ge ->
+  junction_records g gseq txi t (mkJ us ue f2s f2e) false true = Ok rs -> rs = [].
+Proof.
+  intros pre post us ue f2s f2e ds de rs Hex Hch Hrec.
+  eapply (se_skip_form_up pre post us ue f2s f2e ds de); eassumption.
+Qed.
+
+(* X = first exon, junction U->second (second lies in the intron between X and D): X is substituted by second *)
+Lemma mxe_first_su : forall (pre post : list exon) us ue f1s f1e f2s f2e ds de rs,
+  t_exons t = pre ++ (us, ue) :: (f1s, f1e) :: (ds, de) :: post ->
+  chain gs (t_exons t) ge -> f1e < f2s -> f2s < f2e -> f2e < ds ->
+  junction_records g gseq txi t (mkJ us ue f2s f2e) false true = Ok rs ->
+  forall r, In r rs ->
+    r_kind r = KSub /\
+    r_S r = (if strand =? 1 then f1s - gs else ge - f1e) /\ r_E r = (if strand =? 1 then f1e - gs else ge - f1s) /\
+    r_DS r = (if strand =? 1 then f2s - gs else ge - f2e) /\ r_DE r = (if strand =? 1 then f2e - gs else ge - f2s).
+Proof.
+  intros pre post us ue f1s f1e f2s f2e ds de rs Hex Hch O1 O2 O3 Hrec r Hin.
+  rewrite Hex in Hch.
+  destruct (chain_pre _ _ _ _ _ Hch) as (Hpre & U1 & U2 & U3 & Hch2). cbn [fst snd] in *.
+  cbn [chain fst snd] in Hch2. destruct Hch2 as (E1 & E2 & E3 & D1 & D2 & D3 & Hpost).
+  pose proof (chain_post _ _ _ Hpost) as Hpost'.
+  pose proof (zlength_nonneg _ pre) as Hn. pose proof (zlength_nonneg _ post) as Hm.
+  unfold junction_records, align in Hrec. cbn [j_us j_ue j_ds j_de] in Hrec. rewrite Hex in Hrec.
+  rewrite (find_start_none _ f2s) in Hrec.
+  2:{ intros x Hx. apply in_app_or in Hx. destruct Hx as [Hx|[<-|[<-|[<-|Hx]]]]; cbn [fst];
+      [specialize (Hpre x Hx)|..|specialize (Hpost' x Hx)]; lia. }
+  rewrite (find_end_none _ f2e) in Hrec.
+  2:{ intros x Hx. apply in_app_or in Hx. destruct Hx as [Hx|[<-|[<-|[<-|Hx]]]]; cbn [snd];
+      [specialize (Hpre x Hx)|..|specialize (Hpost' x Hx)]; lia. }
+  rewrite !find_start_skip in Hrec by (intros x Hx; specialize (Hpre x Hx); lia).
+  rewrite !find_end_skip in Hrec by (intros x Hx; specialize (Hpre x Hx); lia).
+  cbn [find_start find_end] in Hrec.
+  revert Hrec. zb. cbn [andb]. intro Hrec.
+  replace (0 + zlength pre) with (zlength pre) in Hrec by lia.
+  match type of Hrec with aln_convert _ _ _ _ ?A = _ => set (a := A) in * end.
+  assert (Hint : interjacent a = Ok [zlength pre + 1]).
+  { rewrite (interjacent_fwd a pre (us, ue) ((f1s, f1e) :: (ds, de) :: post)); [|reflexivity|reflexivity|discriminate|unfold a; cbn [a_dsi]; lia].
+    cbn [scan_fwd a_j a j_ue j_ds]. zb. reflexivity. }
+  unfold aln_convert in Hrec. rewrite Hint in Hrec. cbn [bind a_un a_dn a negb andb app] in Hrec.
+  unfold down_arm in Hrec. cbn [nonempty a_dsi a] in Hrec. rewrite orb_true_r in Hrec.
+  rewrite (down_spanning_fwd a pre (us, ue) ((f1s, f1e) :: (ds, de) :: post)) in Hrec by reflexivity.
+  cbn [find_containing a a_j j_ds] in Hrec. unfold inside at 1 2 in Hrec. cbn [fst snd] in Hrec.
+  rewrite find_containing_none in Hrec by (intros x Hx; specialize (Hpost' x Hx); unfold inside; lia).
+  revert Hrec. zb. cbn [andb]. zb. intro Hrec.
+  assert (Hgc : forall p, gs <= p -> p < ge -> g2gene g p = Ok (gcoord strand gs ge p))
+    by (intros; apply g2gene_ok; assumption).
+  assert (Hseq : forall i, 0 <= i -> i < ge - gs -> exists c, seq_at gseq i = Ok c)
+    by (intros; apply (seq_at_ok g chrom Hgs Hge); assumption).
+  unfold create_downstream_substitution, one in Hrec. cbn [hdZ lastZ rev app bind a_ex a a_j j_ds j_de] in Hrec.
+  rewrite exon_at_exact1 in Hrec. cbn [bind fst snd] in Hrec.
+  rewrite !zlength_app, !zlength_cons in Hrec.
+  revert Hrec. zb. intro Hrec.
+  replace (zlength pre + 1 + 1) with (zlength pre + 2) in Hrec by lia.
+  rewrite exon_at_exact2 in Hrec. cbn [bind fst snd] in Hrec.
+  replace (Z.min ds f2e) with f2e in Hrec by lia.
+  rewrite if_same in Hrec. cbn [bind] in Hrec.
+  rewrite !Hgc in Hrec by lia. cbn [bind] in Hrec.
+  unfold finish_sub in Hrec. fold strand in Hrec. unfold gcoord in Hrec.
+  destruct Hstrand as [S|S].
+  - assert (Sb : strand =? 1 = true) by lia. assert (Sc : strand =? -1 = false) by lia. rewrite Sb, Sc in *.
+    destruct (Hseq (f1s - gs)) as [c Hc]; [lia|lia|]. rewrite Hc in Hrec. cbn [bind] in Hrec.
+    unfold mkloc in Hrec. assert (f1e - 1 - gs + 1 <? f1s - gs = false) as E by lia. rewrite E in Hrec.
+    cbn [bind] in Hrec. inversion Hrec; subst rs. destruct Hin as [<-|[]]. cbn [r_kind r_S r_E r_DS r_DE]. repeat split; lia.
+  - assert (Sb : strand =? 1 = false) by lia. assert (Sc : strand =? -1 = true) by lia. rewrite Sb, Sc in *.
+    destruct (Hseq (ge - 1 - (f1e - 1))) as [c Hc]; [lia|lia|]. rewrite Hc in Hrec. cbn [bind] in Hrec.
+    unfold mkloc in Hrec. assert (ge - 1 - f1s + 1 <? ge - 1 - (f1e - 1) = false) as E by lia. rewrite E in Hrec.
+    cbn [bind] in Hrec. inversion Hrec; subst rs. destruct Hin as [<-|[]]. cbn [r_kind r_S r_E r_DS r_DE]. repeat split; lia.
+Qed.
+
+
+(* X = second exon, junction first->D (first lies in the intron between U and X): X is substituted by first *)
+Lemma mxe_second_fd : forall (pre post : list exon) us ue f1s f1e f2s f2e ds de rs,
+  t_exons t = pre ++ (us, ue) :: (f2s, f2e) :: (ds, de) :: post ->
+  chain gs (t_exons t) ge -> ue < f1s -> f1s < f1e -> f1e < f2s ->
+  junction_records g gseq txi t (mkJ f1s f1e ds de) true false = Ok rs ->
+  forall r, In r rs ->
+    r_kind r = KSub /\
+    r_S r = (if strand =? 1 then f2s - gs else ge - f2e) /\ r_E r = (if strand =? 1 then f2e - gs else ge - f2s) /\
+    r_DS r = (if strand =? 1 then f1s - gs else ge - f1e) /\ r_DE r = (if strand =? 1 then f1e - gs else ge - f1s).
+Proof.
+  intros pre post us ue f1s f1e f2s f2e ds de rs Hex Hch O1 O2 O3 Hrec r Hin.
+  rewrite Hex in Hch.
+  destruct (chain_pre _ _ _ _ _ Hch) as (Hpre & U1 & U2 & U3 & Hch2). cbn [fst snd] in *.
+  cbn [chain fst snd] in Hch2. destruct Hch2 as (E1 & E2 & E3 & D1 & D2 & D3 & Hpost).
+  pose proof (chain_post _ _ _ Hpost) as Hpost'.
+  pose proof (zlength_nonneg _ pre) as Hn. pose proof (zlength_nonneg _ post) as Hm.
+  unfold junction_records, align in Hrec. cbn [j_us j_ue j_ds j_de] in Hrec. rewrite Hex in Hrec.
+  rewrite (find_start_none _ f1s) in Hrec.
+  2:{ intros x Hx. apply in_app_or in Hx. destruct Hx as [Hx|[<-|[<-|[<-|Hx]]]]; cbn [fst];
+      [specialize (Hpre x Hx)|..|specialize (Hpost' x Hx)]; lia. }
+  rewrite (find_end_none _ f1e) in Hrec.
+  2:{ intros x Hx. apply in_app_or in Hx. destruct Hx as [Hx|[<-|[<-|[<-|Hx]]]]; cbn [snd];
+      [specialize (Hpre x Hx)|..|specialize (Hpost' x Hx)]; lia. }
+  rewrite !find_start_skip in Hrec by (intros x Hx; specialize (Hpre x Hx); lia).
+  rewrite !find_end_skip in Hrec by (intros x Hx; specialize (Hpre x Hx); lia).
+  cbn [find_start find_end] in Hrec.
+  revert Hrec. zb. cbn [andb]. intro Hrec.
+  replace (0 + zlength pre + 1 + 1) with (zlength pre + 2) in Hrec by lia.
+  match type of Hrec with aln_convert _ _ _ _ ?A = _ => set (a := A) in * end.
+  assert (Hex' : a_ex a = (pre ++ [(us, ue); (f2s, f2e)]) ++ (ds, de) :: post)
+    by (unfold a; cbn [a_ex]; rewrite <- app_assoc; reflexivity).
+  assert (Hdsi : a_dsi a = zlength (pre ++ [(us, ue); (f2s, f2e)]))
+    by (unfold a; cbn [a_dsi]; rewrite zlength_app; reflexivity).
+  assert (Hint : interjacent a = Ok [zlength pre + 1]).
+  { rewrite (interjacent_bwd a _ _ Hex' eq_refl Hdsi) by (destruct pre; discriminate).
+    rewrite rev_app_distr. cbn [rev app scan_bwd a_j a j_ue j_ds].
+    rewrite zlength_app. change (zlength [(us, ue); (f2s, f2e)]) with 2. zb. cbn [andb orb app rev].
+    f_equal. f_equal. lia. }
+  unfold aln_convert in Hrec. rewrite Hint in Hrec. cbn [bind a_un a_dn a negb andb app] in Hrec.
+  unfold up_arm in Hrec. cbn [nonempty a_uei a] in Hrec. rewrite orb_true_r in Hrec.
+  rewrite (up_spanning_bwd a _ _ Hex' Hdsi) in Hrec.
+  rewrite rev_app_distr in Hrec. cbn [rev app first_containing_bwd a a_j j_ue] in Hrec.
+  unfold inside at 1 2 in Hrec. cbn [fst snd] in Hrec.
+  rewrite first_containing_bwd_none in Hrec
+    by (intros x Hx; apply in_rev in Hx; specialize (Hpre x Hx); unfold inside; lia).
+  revert Hrec. zb. cbn [andb]. zb. intro Hrec.
+  assert (Hgc : forall p, gs <= p -> p < ge -> g2gene g p = Ok (gcoord strand gs ge p))
+    by (intros; apply g2gene_ok; assumption).
+  assert (Hseq : forall i, 0 <= i -> i < ge - gs -> exists c, seq_at gseq i = Ok c)
+    by (intros; apply (seq_at_ok g chrom Hgs Hge); assumption).
+  unfold create_upstream_substitution, one in Hrec. cbn [hdZ lastZ rev app bind a_ex a a_j j_us j_ue] in Hrec.
+  rewrite exon_at_exact1 in Hrec. cbn [bind fst snd] in Hrec.
+  revert Hrec. zb. intro Hrec.
+  replace (zlength pre + 1 - 1) with (zlength pre) in Hrec by lia.
+  rewrite exon_at_exact in Hrec. cbn [bind fst snd] in Hrec.
+  replace (Z.max ue f1s) with f1s in Hrec by lia.
+  rewrite !Hgc in Hrec by lia. cbn [bind] in Hrec.
+  unfold finish_sub in Hrec. fold strand in Hrec. unfold gcoord in Hrec.
+  destruct Hstrand as [S|S].
+  - assert (Sb : strand =? 1 = true) by lia. assert (Sc : strand =? -1 = false) by lia. rewrite Sb, Sc in *.
+    destruct (Hseq (f2s - gs)) as [c Hc]; [lia|lia|]. rewrite Hc in Hrec. cbn [bind] in Hrec.
+    unfold mkloc in Hrec. assert (f2e - 1 - gs + 1 <? f2s - gs = false) as E by lia. rewrite E in Hrec.
+    cbn [bind] in Hrec. inversion Hrec; subst rs. destruct Hin as [<-|[]]. cbn [r_kind r_S r_E r_DS r_DE]. repeat split; lia.
+  - assert (Sb : strand =? 1 = false) by lia. assert (Sc : strand =? -1 = true) by lia. rewrite Sb, Sc in *.
+    destruct (Hseq (ge - 1 - (f2e - 1))) as [c Hc]; [lia|lia|]. rewrite Hc in Hrec. cbn [bind] in Hrec.
+    unfold mkloc in Hrec. assert (ge - 1 - f2s + 1 <? ge - 1 - (f2e - 1) = false) as E by lia. rewrite E in Hrec.
+    cbn [bind] in Hrec. inversion Hrec; subst rs. destruct Hin as [<-|[]]. cbn [r_kind r_S r_E r_DS r_DE]. repeat split; lia.
+Qed.
+
 End Cascade.
 
 (* ------------------------------------------------------------------ assembling: SE *)
@@ -1195,3 +1353,361 @@ Lemma rmats_thresholds_only_se : forall g gseq es ee us ue ds de c c',
   (ijc c >=? min_ijc c) = (ijc c' >=? min_ijc c') -> (sjc c >=? min_sjc c) = (sjc c' >=? min_sjc c') ->
   se_convert g gseq es ee us ue ds de c = se_convert g gseq es ee us ue ds de c'.
 Proof. intros. unfold se_convert. rewrite H, H0. reflexivity. Qed.
+
+(* ================================================================== RI *)
+Lemma ri_slack_nonneg : 0 <= Gen.RmatsConst.ri_end_slack.
+Proof. vm_compute. discriminate. Qed.
+
+Lemma ri_scan_spec : forall n (l : list exon) ue ds, (length l <= n)%nat ->
+  (fst (ri_scan l ue ds) = true ->
+     exists (pre : list exon) A B post, l = pre ++ A :: B :: post /\ snd A = ue /\ fst B = ds) /\
+  (0 < snd (ri_scan l ue ds) ->
+     exists (pre : list exon) X post, l = pre ++ X :: post /\ ri_cond X ue ds = 1).
+Proof.
+  induction n as [|n IH]; intros l ue ds Hl.
+  - destruct l; [|cbn in Hl; lia]. cbn. split; [discriminate|lia].
+  - destruct l as [|x t]; [cbn; split; [discriminate|lia]|].
+    cbn [ri_scan]. cbn [length] in Hl.
+    destruct (snd x =? ue) eqn:E1.
+    + destruct t as [|y t2]; [cbn; split; [discriminate|lia]|].
+      destruct (fst y =? ds) eqn:E2.
+      * cbn. split; [|lia]. intros _. exists [], x, y, t2. repeat split; lia.
+      * cbn [length] in Hl. destruct (IH t2 ue ds ltac:(lia)) as (I1 & I2).
+        destruct (ri_scan t2 ue ds) as [sp k] eqn:R. cbn [fst snd] in *. split.
+        -- intros ->. destruct (I1 eq_refl) as (pre & A & B & post & -> & HA & HB).
+           exists (x :: y :: pre), A, B, post. repeat split; assumption.
+        -- intros Hk. assert (Hc : ri_cond y ue ds = 0 \/ ri_cond y ue ds = 1)
+             by (unfold ri_cond; destruct (_ && _); auto).
+           destruct Hc as [Hc|Hc].
+           ++ destruct (I2 ltac:(lia)) as (pre & X & post & -> & HX).
+              exists (x :: y :: pre), X, post. split; [reflexivity|assumption].
+           ++ exists [x], y, t2. split; [reflexivity|assumption].
+    + destruct (IH t ue ds ltac:(lia)) as (I1 & I2).
+      destruct (ri_scan t ue ds) as [sp k] eqn:R. cbn [fst snd] in *. split.
+      * intros ->. destruct (I1 eq_refl) as (pre & A & B & post & -> & HA & HB).
+        exists (x :: pre), A, B, post. repeat split; assumption.
+      * intros Hk. assert (Hc : ri_cond x ue ds = 0 \/ ri_cond x ue ds = 1)
+          by (unfold ri_cond; destruct (_ && _); auto).
+        destruct Hc as [Hc|Hc].
+        -- destruct (I2 ltac:(lia)) as (pre & X & post & -> & HX).
+           exists (x :: pre), X, post. split; [reflexivity|assumption].
+        -- exists [], x, t. split; [reflexivity|assumption].
+Qed.
+
+Lemma in_repeat : forall (x y : Z) n, In y (repeat x n) -> y = x /\ (0 < n)%nat.
+Proof. induction n; cbn; intros; [contradiction|]. destruct H; [subst; split; [reflexivity|lia]|]. destruct (IHn H). split; [assumption|lia]. Qed.
+
+Lemma ri_lists_spec : forall l ue ds i0 k,
+  (In k (fst (ri_lists l ue ds i0)) ->
+     exists t, nth_error l (Z.to_nat (k - i0)) = Some t /\ i0 <= k /\ fst (ri_scan (t_exons t) ue ds) = true) /\
+  (In k (snd (ri_lists l ue ds i0)) ->
+     exists t, nth_error l (Z.to_nat (k - i0)) = Some t /\ i0 <= k /\ 0 < snd (ri_scan (t_exons t) ue ds)).
+Proof.
+  induction l as [|t rest IH]; intros ue ds i0 k; cbn [ri_lists].
+  - cbn. split; contradiction.
+  - destruct (ri_scan (t_exons t) ue ds) as [sp n] eqn:R.
+    destruct (IH ue ds (i0 + 1) k) as (I1 & I2).
+    destruct (ri_lists rest ue ds (i0 + 1)) as [a b]. cbn [fst snd] in *. split.
+    + intros H. apply in_app_or in H. destruct H as [H|H].
+      * destruct sp; [|contradiction]. destruct H as [<-|[]]. exists t. rewrite Z.sub_diag, R. cbn. repeat split; lia.
+      * destruct (I1 H) as (t' & N & A & B). exists t'.
+        replace (Z.to_nat (k - i0)) with (S (Z.to_nat (k - (i0 + 1)))) by lia. cbn. repeat split; try assumption; lia.
+    + intros H. apply in_app_or in H. destruct H as [H|H].
+      * apply in_repeat in H. destruct H as (-> & Hn). exists t. rewrite Z.sub_diag, R. cbn. repeat split; lia.
+      * destruct (I2 H) as (t' & N & A & B). exists t'.
+        replace (Z.to_nat (k - i0)) with (S (Z.to_nat (k - (i0 + 1)))) by lia. cbn. repeat split; try assumption; lia.
+Qed.
+
+Lemma map_res_in : forall A B (f : A -> res B) l rs r, map_res f l = Ok rs -> In r rs -> exists i, In i l /\ f i = Ok r.
+Proof.
+  induction l; intros rs r H Hin; cbn [map_res] in H.
+  - inversion H; subst; contradiction.
+  - apply bind_ok in H. destruct H as (y & E & H). apply bind_ok in H. destruct H as (ys & E2 & H).
+    inversion H; subst. destruct Hin as [<-|Hin].
+    + exists a. split; [left; reflexivity|assumption].
+    + destruct (IHl _ _ E2 Hin) as (i & I1 & I2). exists i. split; [right; assumption|assumption].
+Qed.
+
+(* alt_ri on the two shapes *)
+Lemma alt_ri_spliced : forall (pre : list exon) A B post lo hi ue ds,
+  chain lo (pre ++ A :: B :: post) hi -> snd A = ue -> fst B = ds ->
+  alt_ri (pre ++ A :: B :: post) ue ds = Some (pre ++ (fst A, snd B) :: post).
+Proof.
+  induction pre as [|x pre IH]; intros A B post lo hi ue ds C HA HB.
+  - cbn [app] in *. cbn [chain] in C. cbn [alt_ri].
+    assert ((fst A <? ue) && (ue <? ds) && (ds <? snd A) = false) as -> by lia.
+    assert ((snd A =? ue) && (fst B =? ds) = true) as -> by lia. reflexivity.
+  - cbn [app] in *. cbn [chain] in C. destruct C as (C1 & C2 & C3 & C4).
+    destruct (chain_pre _ _ _ _ _ C4) as (Hpre & A1 & A2 & A3 & C5). cbn [chain] in C5.
+    cbn [alt_ri].
+    assert ((fst x <? ue) && (ue <? ds) && (ds <? snd x) = false) as -> by lia.
+    rewrite (IH A B post _ hi ue ds C4 HA HB).
+    destruct pre as [|y pre']; cbn [app option_map].
+    + assert ((snd x =? ue) && (fst A =? ds) = false) as -> by lia. reflexivity.
+    + pose proof (Hpre y (or_introl eq_refl)).
+      assert ((snd x =? ue) && (fst y =? ds) = false) as -> by lia. reflexivity.
+Qed.
+
+Lemma alt_ri_retained : forall (pre : list exon) X post lo hi ue ds,
+  chain lo (pre ++ X :: post) hi -> fst X < ue -> ue < ds -> ds < snd X ->
+  alt_ri (pre ++ X :: post) ue ds = Some (pre ++ (fst X, ue) :: (ds, snd X) :: post).
+Proof.
+  induction pre as [|x pre IH]; intros X post lo hi ue ds C H1 H2 H3.
+  - cbn [app alt_ri]. assert ((fst X <? ue) && (ue <? ds) && (ds <? snd X) = true) as -> by lia. reflexivity.
+  - cbn [app] in *. cbn [chain] in C. destruct C as (C1 & C2 & C3 & C4).
+    destruct (chain_pre _ _ _ _ _ C4) as (Hpre & A1 & A2 & A3 & C5).
+    cbn [alt_ri].
+    assert ((fst x <? ue) && (ue <? ds) && (ds <? snd x) = false) as -> by lia.
+    rewrite (IH X post _ hi ue ds C4 H1 H2 H3).
+    destruct pre as [|y pre']; cbn [app option_map].
+    + assert ((snd x =? ue) && (fst X =? ds) = false) as -> by lia. reflexivity.
+    + pose proof (Hpre y (or_introl eq_refl)).
+      assert ((snd x =? ue) && (fst y =? ds) = false) as -> by lia. reflexivity.
+Qed.
+
+(* deletion of an inner part [a,b) of one exon X: the exon is split *)
+Lemma tx_seq_refine3 : forall strand chrom (pre : list exon) (X : exon) (post : list exon) a b,
+  0 <= fst X -> fst X <= a -> a <= b -> b <= snd X ->
+  tx_seq strand chrom (pre ++ (fst X, a) :: (a, b) :: (b, snd X) :: post) = tx_seq strand chrom (pre ++ X :: post).
+Proof.
+  intros. unfold tx_seq.
+  assert (E : exons_seq chrom (pre ++ (fst X, a) :: (a, b) :: (b, snd X) :: post) = exons_seq chrom (pre ++ X :: post)).
+  { rewrite !exons_seq_app. f_equal.
+    change (exons_seq chrom ((fst X, a) :: (a, b) :: (b, snd X) :: post))
+      with (slice chrom (fst X) a ++ slice chrom a b ++ slice chrom b (snd X) ++ exons_seq chrom post).
+    change (exons_seq chrom (X :: post)) with (slice chrom (fst X) (snd X) ++ exons_seq chrom post).
+    rewrite !app_assoc. f_equal. rewrite <- app_assoc.
+    rewrite (slice_app chrom a b (snd X)) by lia. apply slice_app; lia. }
+  rewrite E. reflexivity.
+Qed.
+
+Lemma pos_refine3 : forall (pre : list exon) (X : exon) (post : list exon) a b p acc,
+  fst X <= a -> a <= b -> b <= snd X ->
+  pos_in_exons (pre ++ (fst X, a) :: (a, b) :: (b, snd X) :: post) p acc = pos_in_exons (pre ++ X :: post) p acc.
+Proof.
+  induction pre as [|x pre IH]; intros X post a b p acc H1 H2 H3.
+  - cbn [app pos_in_exons]. unfold inside. cbn [fst snd].
+    destruct ((fst X <=? p) && (p <? snd X)) eqn:E.
+    + destruct ((fst X <=? p) && (p <? a)) eqn:E1; [reflexivity|].
+      destruct ((a <=? p) && (p <? b)) eqn:E2; [f_equal; lia|].
+      destruct ((b <=? p) && (p <? snd X)) eqn:E3; [f_equal; lia|lia].
+    + assert ((fst X <=? p) && (p <? a) = false) as -> by lia.
+      assert ((a <=? p) && (p <? b) = false) as -> by lia.
+      assert ((b <=? p) && (p <? snd X) = false) as -> by lia.
+      f_equal. lia.
+  - cbn [app pos_in_exons]. destruct (inside x p); [reflexivity|]. apply IH; assumption.
+Qed.
+
+Lemma exons_len_refine3 : forall (pre : list exon) (X : exon) (post : list exon) a b,
+  exons_len (pre ++ (fst X, a) :: (a, b) :: (b, snd X) :: post) = exons_len (pre ++ X :: post).
+Proof. intros. rewrite !exons_len_app. cbn [exons_len fst snd]. lia. Qed.
+
+Lemma gene2tx_refine3 : forall strand gs ge (pre : list exon) (X : exon) (post : list exon) a b i,
+  fst X <= a -> a <= b -> b <= snd X ->
+  gene2tx strand gs ge (pre ++ (fst X, a) :: (a, b) :: (b, snd X) :: post) i = gene2tx strand gs ge (pre ++ X :: post) i.
+Proof. intros. unfold gene2tx. rewrite pos_refine3 by assumption. rewrite exons_len_refine3. reflexivity. Qed.
+
+Lemma apply_record_ext : forall f h t gq r, (forall i, f i = h i) -> apply_record f t gq r = apply_record h t gq r.
+Proof. intros. unfold apply_record. rewrite !H. reflexivity. Qed.
+
+Lemma wchain_refine3 : forall (pre : list exon) (X : exon) (post : list exon) lo hi a b,
+  wchain lo (pre ++ X :: post) hi -> fst X <= a -> a <= b -> b <= snd X ->
+  wchain lo (pre ++ (fst X, a) :: (a, b) :: (b, snd X) :: post) hi.
+Proof.
+  induction pre as [|x pre IH]; intros X post lo hi a b W H1 H2 H3.
+  - cbn [app wchain fst snd] in *. destruct W as (W1 & W2 & W3 & W4). repeat split; try lia. assumption.
+  - cbn [app wchain] in *. destruct W as (W1 & W2 & W3 & W4). repeat split; try lia. apply IH; assumption.
+Qed.
+
+Lemma sem_del_inner : forall strand gs ge chrom (pre : list exon) (X : exon) (post : list exon) a b r gseq,
+  strand = 1 \/ strand = -1 -> 0 <= gs -> ge <= zlength chrom ->
+  wchain gs (pre ++ X :: post) ge -> fst X <= a -> a < b -> b <= snd X ->
+  r_kind r = KDel ->
+  r_S r = (if strand =? 1 then a - gs else ge - b) ->
+  r_E r = (if strand =? 1 then b - gs else ge - a) ->
+  apply_record (gene2tx strand gs ge (pre ++ X :: post)) (tx_seq strand chrom (pre ++ X :: post)) gseq r
+  = Some (tx_seq strand chrom (pre ++ (fst X, a) :: (b, snd X) :: post)).
+Proof.
+  intros strand gs ge chrom pre X post a b r gseq Hs Hgs Hge W H1 H2 H3 K S E.
+  pose proof (wchain_app _ _ _ _ W) as (_ & lo' & L1 & Wm & _). cbn [wchain] in Wm. destruct Wm as (W1 & _).
+  rewrite <- (tx_seq_refine3 strand chrom pre X post a b) by lia.
+  rewrite (apply_record_ext _ (gene2tx strand gs ge (pre ++ (fst X, a) :: (a, b) :: (b, snd X) :: post)))
+    by (intros; symmetry; apply gene2tx_refine3; lia).
+  eapply (denotes_cong _ _ _ _ _ _ _ ((pre ++ [(fst X, a)]) ++ (a, b) :: (b, snd X) :: post) _ ((pre ++ [(fst X, a)]) ++ (b, snd X) :: post));
+    [apply reassoc1|apply reassoc1|].
+  apply (sem_del strand gs ge chrom); try assumption.
+  - rewrite <- reassoc1. apply wchain_refine3; try assumption; lia.
+Qed.
+
+Lemma g2gene_inv : forall g idx v, g2gene g idx = Ok v ->
+  g_start g <= idx /\ idx < g_end g /\ v = gcoord (g_strand g) (g_start g) (g_end g) idx.
+Proof.
+  unfold g2gene, gcoord. intros. destruct ((g_start g <=? idx) && (idx <? g_end g)) eqn:E; [|discriminate].
+  inversion H. repeat split; lia.
+Qed.
+
+Lemma ri_ins_denotes : forall g chrom ue ds t alt r,
+  wf_gene g chrom -> ue < ds -> g_start g <= ue -> ds <= g_end g -> In t (g_txs g) ->
+  fst (ri_scan (t_exons t) ue ds) = true -> alt_ri (t_exons t) ue ds = Some alt ->
+  r_kind r = KIns ->
+  r_start r = (if g_strand g =? 1 then ue - g_start g - 1 else g_end g - ds - 1) ->
+  r_DS r = (if g_strand g =? 1 then ue - g_start g else g_end g - ds) ->
+  r_DE r = (if g_strand g =? 1 then ds - g_start g else g_end g - ue) ->
+  denotes g chrom t r alt.
+Proof.
+  intros g chrom ue ds t alt r (Hst & Hgs & Hge & Hch) Hlt B1 B2 Ht Sp Halt K P DS DE.
+  destruct (proj1 (ri_scan_spec _ _ ue ds (le_n _)) Sp) as (pre & A & B & post & Ex & HA & HB).
+  pose proof (Hch t Ht) as C. rewrite Ex in C.
+  rewrite Ex in Halt. rewrite (alt_ri_spliced _ _ _ _ _ _ _ _ C HA HB) in Halt. inversion Halt; subst alt. clear Halt.
+  destruct (chain_pre _ _ _ _ _ C) as (Hpre & A1 & A2 & A3 & C5). cbn [chain] in C5. destruct C5 as (C6 & C7 & C8 & C9).
+  destruct A as [a1 a2], B as [b1 b2]. cbn [fst snd] in *. subst a2 b1.
+  unfold denotes. rewrite Ex.
+  assert (R := tx_seq_refine3 (g_strand g) chrom pre (a1, b2) post ue ds). cbn [fst snd] in R.
+  specialize (R ltac:(lia) ltac:(lia) ltac:(lia) ltac:(lia)).
+  etransitivity; [|apply f_equal; exact R]. clear R.
+  destruct Hst as [S1|S1]; rewrite S1 in *; cbn [Z.eqb Pos.eqb] in *.
+  - eapply (denotes_cong _ _ _ _ _ _ _ _ _ ((pre ++ [(a1, ue)]) ++ (ue, ds) :: (ds, b2) :: post)); [reflexivity|apply reassoc1|].
+    apply sem_ins_plus; try assumption; cbn [fst snd]; try lia.
+    apply chain_wchain. assumption.
+  - eapply (denotes_cong _ _ _ _ _ _ _ ((pre ++ [(a1, ue)]) ++ (ds, b2) :: post) _ ((pre ++ [(a1, ue)]) ++ (ue, ds) :: (ds, b2) :: post));
+      [apply reassoc1|apply reassoc1|].
+    apply sem_ins_minus; try assumption; cbn [fst snd]; try lia.
+    apply chain_wchain. rewrite <- reassoc1. assumption.
+Qed.
+
+Lemma ri_del_denotes : forall g chrom ue ds t alt r,
+  wf_gene g chrom -> ue < ds -> In t (g_txs g) ->
+  0 < snd (ri_scan (t_exons t) ue ds) -> alt_ri (t_exons t) ue ds = Some alt ->
+  r_kind r = KDel ->
+  r_S r = (if g_strand g =? 1 then ue - g_start g else g_end g - ds) ->
+  r_E r = (if g_strand g =? 1 then ds - g_start g else g_end g - ue) ->
+  denotes g chrom t r alt.
+Proof.
+  intros g chrom ue ds t alt r (Hst & Hgs & Hge & Hch) Hlt Ht Sp Halt K S E.
+  destruct (proj2 (ri_scan_spec _ _ ue ds (le_n _)) Sp) as (pre & X & post & Ex & HX).
+  unfold ri_cond in HX. pose proof ri_slack_nonneg as SL.
+  destruct ((fst X <? ue) && (ue <? ds) && (ds <? snd X - Gen.RmatsConst.ri_end_slack)) eqn:EX; [|discriminate].
+  pose proof (Hch t Ht) as C. rewrite Ex in C.
+  assert (X1 : fst X < ue) by lia. assert (X3 : ds < snd X) by lia.
+  rewrite Ex in Halt. rewrite (alt_ri_retained _ _ _ _ _ _ _ C X1 Hlt X3) in Halt.
+  inversion Halt; subst alt. clear Halt.
+  unfold denotes. rewrite Ex.
+  apply sem_del_inner; try assumption; try lia.
+  apply chain_wchain. assumption.
+Qed.
+
+Lemma rmats_ri_reproduces : forall g chrom ue ds c id rs,
+  wf_gene g chrom -> ue < ds ->
+  ri_convert g (gene_seq (g_strand g) chrom (g_start g) (g_end g)) ue ds c = Ok (id, rs) ->
+  forall r, In r rs -> forall t alt,
+    0 <= r_tx r -> nth_error (g_txs g) (Z.to_nat (r_tx r)) = Some t ->
+    alt_ri (t_exons t) ue ds = Some alt ->
+    denotes g chrom t r alt.
+Proof.
+  intros g chrom ue ds c id rs Hwf Hlt Hc r Hin t alt Hr0 Hnth Halt.
+  pose proof Hwf as (Hst & Hgs & Hge & Hch).
+  unfold ri_convert in Hc.
+  pose proof (ri_lists_spec (g_txs g) ue ds 0) as Spec.
+  destruct (ri_lists (g_txs g) ue ds 0) as [spliced retained]. cbn [fst snd] in Spec.
+  apply bind_ok in Hc. destruct Hc as (sg0 & G1 & Hc). apply bind_ok in Hc. destruct Hc as (eg0 & G2 & Hc).
+  destruct (g2gene_inv _ _ _ G1) as (B1 & B2 & ->). destruct (g2gene_inv _ _ _ G2) as (B3 & B4 & ->).
+  unfold gcoord in Hc.
+  assert (SM : (g_strand g =? -1) = negb (g_strand g =? 1)) by (destruct Hst as [S|S]; rewrite S; reflexivity).
+  rewrite SM in Hc.
+  destruct (g_strand g =? 1) eqn:SP; cbn [negb] in Hc; cbv beta iota zeta in Hc;
+  (apply bind_ok in Hc; destruct Hc as (v1 & V1 & Hc); apply bind_ok in Hc; destruct Hc as (v2 & V2 & Hc);
+   inversion Hc; subst id rs; clear Hc;
+   apply in_app_or in Hin; destruct Hin as [Hin|Hin];
+   [ destruct (negb (nonempty retained) && (ijc c >=? min_ijc c)); [|inversion V1; subst; contradiction];
+     destruct (map_res_in _ _ _ _ _ _ V1 Hin) as (i & Ii & Fi);
+     apply bind_ok in Fi; destruct Fi as (ref & _ & Fi); inversion Fi; subst r; clear Fi; cbn [r_tx] in *;
+     destruct (proj1 (Spec i) Ii) as (t' & N & _ & Sp); rewrite Z.sub_0_r in N; rewrite N in Hnth; inversion Hnth; subst t';
+     apply (ri_ins_denotes g chrom ue ds t alt); try assumption; try lia;
+       [eapply nth_error_In; eassumption|reflexivity|cbn [r_start]; rewrite SP; lia|cbn [r_DS]; rewrite SP; lia|cbn [r_DE]; rewrite SP; lia]
+   | destruct (negb (nonempty spliced) && (sjc c >=? min_sjc c)); [|inversion V2; subst; contradiction];
+     apply bind_ok in V2; destruct V2 as (u & _ & V2);
+     destruct (map_res_in _ _ _ _ _ _ V2 Hin) as (i & Ii & Fi);
+     apply bind_ok in Fi; destruct Fi as (ref & _ & Fi); inversion Fi; subst r; clear Fi; cbn [r_tx] in *;
+     destruct (proj2 (Spec i) Ii) as (t' & N & _ & Sp); rewrite Z.sub_0_r in N; rewrite N in Hnth; inversion Hnth; subst t';
+     apply (ri_del_denotes g chrom ue ds t alt); try assumption;
+       [eapply nth_error_In; eassumption|reflexivity|cbn [r_S]; rewrite SP; lia|cbn [r_E]; rewrite SP; lia] ]).
+Qed.
+
+(* ================================================================== assembling: MXE *)
+Lemma alt_mxe_inv : forall ex U X Y D alt, alt_mxe ex U X Y D = Some alt ->
+  exists (pre post : list exon), ex = pre ++ U :: X :: D :: post /\ alt = pre ++ U :: Y :: D :: post.
+Proof.
+  induction ex as [|a t IH]; intros U X Y D alt H; cbn [alt_mxe] in H; [discriminate|].
+  destruct (exon_eqb a U) eqn:EU.
+  - apply exon_eqb_eq in EU. subst a.
+    destruct t as [|b [|c t3]]; try discriminate.
+    destruct (exon_eqb b X && exon_eqb c D) eqn:E; [|discriminate].
+    apply andb_prop in E. destruct E as (E1 & E2). apply exon_eqb_eq in E1. apply exon_eqb_eq in E2. subst b c.
+    inversion H; subst. exists [], t3. split; reflexivity.
+  - destruct (alt_mxe t U X Y D) eqn:R; [|discriminate]. cbn in H. inversion H; subst.
+    destruct (IH _ _ _ _ _ R) as (pre & post & A & B). subst.
+    exists (a :: pre), post. split; reflexivity.
+Qed.
+
+Lemma dedup_first_in : forall same l seen r, In r (dedup_first same seen l) -> In r l.
+Proof.
+  induction l as [|x t IH]; intros seen r H; cbn [dedup_first] in H; [contradiction|].
+  destruct (existsb (same x) seen).
+  - right. eapply IH; eassumption.
+  - destruct H as [<-|H]; [left; reflexivity|right; eapply IH; eassumption].
+Qed.
+
+Lemma rmats_mxe_reproduces : forall g chrom f1s f1e f2s f2e us ue ds de c id rs,
+  wf_gene g chrom -> ue < f1s -> f1s < f1e -> f1e < f2s -> f2s < f2e -> f2e < ds ->
+  mxe_convert g (gene_seq (g_strand g) chrom (g_start g) (g_end g)) f1s f1e f2s f2e us ue ds de c = Ok (id, rs) ->
+  forall r, In r rs -> forall t alt,
+    0 <= r_tx r -> nth_error (g_txs g) (Z.to_nat (r_tx r)) = Some t ->
+    (alt_mxe (t_exons t) (us, ue) (f1s, f1e) (f2s, f2e) (ds, de) = Some alt \/
+     alt_mxe (t_exons t) (us, ue) (f2s, f2e) (f1s, f1e) (ds, de) = Some alt) ->
+    denotes g chrom t r alt.
+Proof.
+  intros g chrom f1s f1e f2s f2e us ue ds de c id rs (Hst & Hgs & Hge & Hch) O1 O2 O3 O4 O5 Hc r Hin t alt Hr0 Hnth Halt.
+  unfold mxe_convert in Hc.
+  apply bind_ok in Hc. destruct Hc as (known & _ & Hc).
+  destruct known; [inversion Hc; subst; contradiction|].
+  apply bind_ok in Hc. destruct Hc as (id' & _ & Hc).
+  apply bind_ok in Hc. destruct Hc as (rs' & Hov & Hc). inversion Hc; subst id' rs. clear Hc.
+  apply dedup_first_in in Hin.
+  destruct (over_txs_in _ _ _ _ _ _ Hov Hin) as (k & t' & out & Hk & Hf & Hout).
+  apply seq2_ok in Hf. destruct Hf as (o1 & o2 & F1 & F2 & ->).
+  assert (Htx : r_tx r = 0 + Z.of_nat k).
+  { apply in_app_or in Hout. destruct Hout as [Ho|Ho].
+    - destruct (ijc c >=? min_ijc c); [|inversion F1; subst; contradiction].
+      eapply junction_records_tx; [exact F1|exact Ho].
+    - destruct (sjc c >? min_sjc c); [|inversion F2; subst; contradiction].
+      eapply junction_records_tx; [exact F2|exact Ho]. }
+  rewrite Htx in Hnth. replace (Z.to_nat (0 + Z.of_nat k)) with k in Hnth by lia.
+  rewrite Hk in Hnth. inversion Hnth; subst t'. clear Hnth.
+  assert (Hcht : chain (g_start g) (t_exons t) (g_end g)) by (apply Hch; eapply nth_error_In; eassumption).
+  unfold denotes.
+  destruct Halt as [Halt|Halt]; destruct (alt_mxe_inv _ _ _ _ _ _ Halt) as (pre & post & Hex & ->).
+  - (* transcript carries U first D: only U->second yields a record, first substituted by second *)
+    apply in_app_or in Hout. destruct Hout as [Ho|Ho].
+    + destruct (ijc c >=? min_ijc c); [|inversion F1; subst; contradiction].
+      rewrite (mxe_first_fd g chrom _ t _ _ _ _ _ _ _ _ _ Hex Hcht F1) in Ho. contradiction.
+    + destruct (sjc c >? min_sjc c); [|inversion F2; subst; contradiction].
+      destruct (mxe_first_su g chrom Hst Hgs Hge _ t _ _ _ _ _ _ _ _ _ _ _ Hex Hcht O3 O4 O5 F2 r Ho) as (K & S & E & DS & DE).
+      rewrite Hex.
+      eapply (denotes_cong _ _ _ _ _ _ _ ((pre ++ [(us, ue)]) ++ (f1s, f1e) :: (ds, de) :: post) _ ((pre ++ [(us, ue)]) ++ (f2s, f2e) :: (ds, de) :: post));
+        [apply reassoc1|apply reassoc1|].
+      rewrite Hex in Hcht. destruct (chain_pre _ _ _ _ _ Hcht) as (_ & U1 & U2 & U3 & C2). cbn [chain fst snd] in C2, U1, U2, U3.
+      apply sem_sub; try assumption; cbn [fst snd]; try lia.
+      apply chain_wchain. rewrite <- reassoc1. assumption.
+  - (* transcript carries U second D: only first->D yields a record, second substituted by first *)
+    apply in_app_or in Hout. destruct Hout as [Ho|Ho].
+    + destruct (ijc c >=? min_ijc c); [|inversion F1; subst; contradiction].
+      destruct (mxe_second_fd g chrom Hst Hgs Hge _ t _ _ _ _ _ _ _ _ _ _ _ Hex Hcht O1 O2 O3 F1 r Ho) as (K & S & E & DS & DE).
+      rewrite Hex.
+      eapply (denotes_cong _ _ _ _ _ _ _ ((pre ++ [(us, ue)]) ++ (f2s, f2e) :: (ds, de) :: post) _ ((pre ++ [(us, ue)]) ++ (f1s, f1e) :: (ds, de) :: post));
+        [apply reassoc1|apply reassoc1|].
+      rewrite Hex in Hcht. destruct (chain_pre _ _ _ _ _ Hcht) as (_ & U1 & U2 & U3 & C2). cbn [chain fst snd] in C2, U1, U2, U3.
+      apply sem_sub; try assumption; cbn [fst snd]; try lia.
+      apply chain_wchain. rewrite <- reassoc1. assumption.
+    + destruct (sjc c >? min_sjc c); [|inversion F2; subst; contradiction].
+      rewrite (mxe_second_su g chrom _ t _ _ _ _ _ _ _ _ _ Hex Hcht F2) in Ho. contradiction.
+Qed.
